@@ -2075,3 +2075,64 @@ Lemma sp_run :
     last_index (r_log F2') = 5 /\ committed (r_log F2') = 5 /\
     last_index (r_log F3') = 5 /\ committed (r_log F3') = 5.
 Proof. vm_compute. do 5 eexists. repeat split; reflexivity. Qed.
+
+(* ================================================================== *)
+(* the frame lemma, stated outside the sections                        *)
+(* ================================================================== *)
+
+(* MAIN 7-frame (star_frame).  While the leader handles a response of ANOTHER follower
+   (m_from m <> f), follower f's Progress keeps its state, its matched and - while
+   probing - its next_idx, and keeps the invariant PrInv; whatever is queued for f
+   meanwhile is a sound MsgAppend (built from the leader's log and f's Progress only);
+   apart from log (commit index), progress map and queue the leader is untouched.
+   NOTE: next_idx and the inflight window of a REPLICATING f may change: an acknowledgement
+   of another follower that advances the commit index makes the leader bcast_append, which
+   sends to everybody (see other_response_moves_next_refuted). *)
+Theorem star_frame :
+  forall (LL : LL) (T l f lo : N) (rwl : bool) (l0 : raft_log) (b : N)
+         (L : raft) (pr : progress) (m : msg) (L' : raft) (c : N),
+  LeaderLog LL -> ll_base LL <= lo -> (exists t, ll_term LL lo = SOk t) -> T <> 0 -> l <> f ->
+  RepInv rwl l0 -> abs l0 = LL ->
+  LCore T l l0 L -> get_pr L f = Some pr -> PrInv LL lo b pr ->
+  m_term m = T -> m_from m <> f ->
+  (m_type m = MsgAppendResponse \/ (m_type m = MsgHeartbeatResponse /\ m_context m = [])) ->
+  step L m = Ok (L', c) ->
+  exists pr',
+    get_pr L' f = Some pr' /\ PrInv LL lo b pr' /\
+    pr_state pr' = pr_state pr /\ matched pr' = matched pr /\
+    (pr_state pr = Probe -> next_idx pr' = next_idx pr) /\
+    lfr L L' /\ LCore T l l0 L' /\
+    exists new, r_msgs L' = r_msgs L ++ new /\
+                Forall (fun x => m_to x = f -> snd_app LL T l f lo x) new.
+Proof.
+  intros LL T l f lo rwl l0 b L pr m L' c HLL Hlo HloT HT Hlf Hl0 Habs0 HC Hg HP Hm Hf Hty H.
+  destruct (leader_step_other LL T l f lo HLL Hlo HloT HT Hlf rwl l0 Hl0 Habs0 b L pr m L' c HC Hg HP
+              (conj Hm (conj Hf Hty)) H) as (pr' & A1 & A2 & A3 & A4 & A5).
+  destruct (pkey_inv _ _ A5) as (K1 & K2 & K3).
+  exists pr'. split; [exact A3|]. split; [exact A4|]. split; [exact K1|]. split; [exact K2|].
+  split; [intros Hs; apply K3; congruence|]. split; [exact A1|].
+  split; [eapply lfr_LCore; eassumption|exact A2].
+Qed.
+
+(* the stronger claim "a response of another follower never changes f's next_idx or
+   window" is FALSE: leader 1 (term 2, log 1..5), follower 3 replicating at next_idx 3;
+   follower 2 acknowledges index 5: the commit index advances to 5 and bcast_append
+   sends entries 3..5 to follower 3, whose next_idx becomes 6 and whose window fills *)
+Definition rf_L : raft :=
+  mkRaft 2 1 1 [] xp_logL 256 1000 0 Leader true 1 None 0 (ro_new 0) 0 0
+         false false false false false 2 10 15 10 20 0%Z u64_max 0 5 u64_max
+         (mkTr [(1, mkPr 5 6 Replicate false 0 0 true (Inflights.new 256) 0 0);
+                (2, mkPr 0 6 Replicate false 0 0 true (Inflights.new 256) 0 0);
+                (3, mkPr 2 3 Replicate false 0 0 true (Inflights.new 256) 0 0)]
+               (mkConf [1; 2; 3] [] [] [] false) [] 256 false) [] [] None.
+Definition rf_m : msg :=
+  msg_default <| m_type := MsgAppendResponse |> <| m_from := 2 |> <| m_to := 1 |> <| m_term := 2 |>
+              <| m_index := 5 |>.
+
+Theorem other_response_moves_next_refuted :
+  exists L' p3 p3',
+    step rf_L rf_m = Ok (L', E_OK) /\ m_from rf_m = 2 /\
+    get_pr rf_L 3 = Some p3 /\ get_pr L' 3 = Some p3' /\
+    next_idx p3 = 3 /\ next_idx p3' = 6 /\ count (ins p3) = 0%nat /\ count (ins p3') = 1%nat /\
+    matched p3' = matched p3 /\ pr_state p3' = pr_state p3 /\ committed (r_log L') = 5.
+Proof. vm_compute. do 3 eexists. repeat split; reflexivity. Qed.
